@@ -1,3 +1,5 @@
+# SUPERSEDED: this comparison now runs inside `./check` (corr/c10.py inbound_tie), through the driver binary and seeded from ctx.rng.
+# The stand-alone version below is kept for reference only: it depends on scratch files under /tmp and on a Lean main that no longer exists.
 """Cross-check of the Lean inbound login model against the REAL pyCraft client (read-only on /repo).
 For each case: an independent reference server produces the login byte stream; the real client's
 read loop (read_packet on connection.file_object + _react, exactly the two calls of
